@@ -6,7 +6,7 @@ export GOFLAGS=-mod=mod GOPROXY=off GOSUMDB=off GOTOOLCHAIN=local
 OUT=$(mktemp /tmp/baseline.XXXXXX.json)
 # event::TestTransitions is timing dependent (two of its cases are listed as flaky in BASELINE.json); allow 3 attempts
 for attempt in 1 2 3; do
-(cd /repo && go test -mod=mod -json -vet=off -count=1 -timeout 25m ./... > "$OUT" 2>/dev/null)
+(cd "${REPO_DIR:-/repo}" && go test -mod=mod -json -vet=off -count=1 -timeout 25m ./... > "$OUT" 2>/dev/null)
 python3 - "$OUT" <<'PY'
 import json,sys
 base=json.load(open('/root/.vp/BASELINE.json'))
@@ -26,5 +26,5 @@ rc=$?
 [ $rc -eq 0 ] && break
 done
 rm -f "$OUT"
-git -C /repo checkout -- go.sum 2>/dev/null
+git -C "${REPO_DIR:-/repo}" checkout -- go.sum 2>/dev/null
 exit $rc
